@@ -27,6 +27,15 @@ class MemError(Exception):
     pass
 
 
+class Undef:
+    """value of an uninitialised floating-point location (LLVM undef): may be copied around, must not be observed"""
+    def __repr__(self):
+        return "undef"
+
+
+UNDEF = Undef()
+
+
 class Bits:
     """integer view of a symbolic float (term moved through an i64/i32 load/store or bitcast)"""
     __slots__ = ("term", "bits")
@@ -145,6 +154,8 @@ class Machine:
         self.track_reads = False
         self.in_guard = 0
         self.guard_writes = {}
+        self.block_trace = None
+        self.trace_name = ''
         self._init_globals()
 
     # ------------------------------------------------------------------ memory
@@ -311,6 +322,13 @@ class Machine:
                             found = True
                         break
                 if not found:
+                    if o.kind == "global" and self.mod.globals.get(o.name, {}).get("init") is None:
+                        # load from an external global (e.g. a VTT entry hoisted out of an error path): opaque value
+                        self.events.append(("extern-global-load", o.name))
+                        return 0
+                    if size in (4, 8) and o.kind in ("heap", "stack", "tmp") and getattr(self, "_fp_load", False):
+                        self.events.append(("undef-fp-load", o.name or o.kind))
+                        return UNDEF
                     if size == 1 and o.kind == "stack":
                         # copy of an empty class object (clang emits a 1-byte load of an uninitialised alloca): value is undef
                         self.events.append(("undef-byte-load", o.name))
@@ -330,7 +348,13 @@ class Machine:
     def load(self, a, ty):
         k = ty["k"]
         size = ty["size"]
-        v = self.load_raw(a, size)
+        self._fp_load = (k == "fp")
+        try:
+            v = self.load_raw(a, size)
+        finally:
+            self._fp_load = False
+        if v is UNDEF:
+            return v
         if k == "fp":
             if isinstance(v, int):
                 return bits2f(v, ty["bits"])
@@ -546,6 +570,8 @@ class Machine:
 
     # ------------------------------------------------------------------ fp helpers
     def fbin(self, op, a, b, bits):
+        if a is UNDEF or b is UNDEF:
+            return UNDEF
         if isinstance(a, float) and isinstance(b, float):
             try:
                 if op == "fadd":
@@ -587,6 +613,8 @@ class Machine:
     def lift(self, x, bits=64):
         if isinstance(x, Term):
             return x
+        if x is UNDEF:
+            raise MemError("uninitialised floating-point value observed (compared, converted or returned)")
         if isinstance(x, float):
             if math.isinf(x) or math.isnan(x):
                 raise PathAbort("non-finite value meets symbolic arithmetic")
@@ -598,6 +626,8 @@ class Machine:
         raise Unsupported("lift %r" % (x,))
 
     def fcmp(self, pred, a, b):
+        if a is UNDEF or b is UNDEF:
+            raise MemError("branch on an uninitialised floating-point value")
         if isinstance(a, float) and isinstance(b, float):
             un = (a != a) or (b != b)
             base = pred[1:] if pred[0] in "ou" and pred not in ("ord", "uno", "one", "oeq") else pred
@@ -684,8 +714,11 @@ class Machine:
             return const(o)
 
         try:
+            tr = self.block_trace if self.block_trace is not None and self.trace_name in f["name"] else None
             while True:
                 blk = blocks[bi]
+                if tr is not None:
+                    tr.append(bi)
                 # phi nodes: evaluate simultaneously
                 n = 0
                 if blk and blk[0]["op"] == "phi":
@@ -726,7 +759,7 @@ class Machine:
                         vals[ins["id"]] = self.fbin(op, val(o[0]), val(o[1]), types[ins["ty"]]["bits"])
                     elif op == "fneg":
                         x = val(ins["ops"][0])
-                        vals[ins["id"]] = -x if isinstance(x, float) else T.Neg(self.lift(x))
+                        vals[ins["id"]] = UNDEF if x is UNDEF else (-x if isinstance(x, float) else T.Neg(self.lift(x)))
                     elif op == "br":
                         prev = bi
                         if "cond" in ins:
